@@ -250,6 +250,54 @@ Proof. intros Hp.
   destruct (G st Hp full eq_refl) as (hs & E). rewrite E. cbn [fst snd]. split; [reflexivity|].
   unfold client_view. apply client_sethdrs_hijack. Qed.
 
+(* ... also when the handler has set headers and written a status through its writer first (a tunnel's 200, an upgrade's
+   101): whatever of that has reached the connection, the handler gets the connection *)
+Definition is_head_act (a : hact) : bool := match a with HSet _ _ | HStatus _ => true | _ => false end.
+Definition is_head_ev (e : wev) : bool := match e with SetHdr _ _ | WriteHeader _ => true | _ => false end.
+
+Lemma has_hijack_head p : forallb is_head_ev p = true -> has_hijack (p ++ [Hijack]) = true.
+Proof. induction p as [|e p IH]; cbn; [reflexivity|]. destruct e; cbn; try discriminate; auto. Qed.
+
+Lemma client_head_hijack p : forallb is_head_ev p = true ->
+  forall cm s acc, v_hijacked (client (p ++ [Hijack]) cm s acc [] 0) = true.
+Proof. induction p as [|e p IH]; intros Hp cm s acc; cbn [app client]; [reflexivity|].
+  destruct e; cbn in Hp; try discriminate.
+  - apply IH, Hp.
+  - destruct cm; apply IH, Hp.
+Qed.
+
+Lemma run_handler_head c pre : forallb is_head_act pre = true -> hijack_ok c = true ->
+  exists p, run_handler c (pre ++ [HHijack]) = p ++ [Hijack] /\ forallb is_head_ev p = true.
+Proof. induction pre as [|a pre IH]; intros Hp Hc; cbn [app run_handler].
+  - rewrite Hc. exists []. auto.
+  - destruct a; cbn in Hp; try discriminate; destruct (IH Hp Hc) as (p & E & F); rewrite E.
+    + exists (SetHdr k v :: p). auto.
+    + exists (WriteHeader c0 :: p). auto.
+Qed.
+
+Lemma sethdrs_head hs : forallb is_head_ev (sethdrs hs) = true.
+Proof. induction hs; cbn; auto. Qed.
+
+Theorem transparent_hijack_after_head st pre : Forall passive st -> forallb is_head_act pre = true ->
+  snd (serve st full (pre ++ [HHijack])) = 1 /\
+  v_hijacked (client_view (fst (serve st full (pre ++ [HHijack])))) = true.
+Proof. intros Hp Hpre.
+  assert (G : forall st0, Forall passive st0 -> forall c, hijack_ok c = true ->
+            exists p, serve st0 c (pre ++ [HHijack]) = (p ++ [Hijack], 1) /\ forallb is_head_ev p = true).
+  { induction 1 as [|l st0 Hl _ IH]; intros c Hc; cbn [serve].
+    - destruct (run_handler_head c pre Hpre Hc) as (p & E & F). rewrite E. exists p. auto.
+    - unfold passive in Hl. rewrite Hl.
+      destruct (IH (caps_through (lkind l) c)) as (p & E & F); [unfold caps_through; destruct (is_buffer (lkind l)); exact Hc|].
+      rewrite E.
+      assert (O : own l = sethdrs (own_hdrs l)).
+      { unfold own, own_hdrs, sethdrs. destruct (lkind l); try reflexivity; destruct (sticky l); reflexivity. }
+      rewrite O. unfold transform. destruct (is_buffer (lkind l)).
+      + unfold buffered. rewrite (has_hijack_head p F). exists (sethdrs (own_hdrs l)). split; [reflexivity|apply sethdrs_head].
+      + exists (sethdrs (own_hdrs l) ++ p). rewrite <- app_assoc. split; [reflexivity|].
+        rewrite forallb_app, sethdrs_head, F. reflexivity. }
+  destruct (G st Hp full eq_refl) as (p & E & F). rewrite E. cbn [fst snd]. split; [reflexivity|].
+  unfold client_view. apply client_head_hijack, F. Qed.
+
 (* on a connection that cannot be hijacked (HTTP/2) the handler's hijack attempt fails through every stack, and the
    handler's fallback response is served exactly as if it had not tried *)
 Theorem hijack_unavailable st : forall c h, hijack_ok c = false -> serve st c (HHijack :: h) = serve st c h.
